@@ -39,7 +39,7 @@ fn unary_api(t: &Ty) -> String {
         ty.clone().flatten_tuple().map(|p| p.iter().map(tcanon).collect::<Vec<_>>().join(",")).unwrap_or_else(|| "none".into())
     ));
     out.push(format!("tuple_len={:?} min={:?}", ty.tuple_len(), ty.min_tuple_len()));
-    out.push(format!("tuple0={} tuple1={}", ocanon(ty.tuple_element_at(0)), ocanon(ty.tuple_element_at(1))));
+    out.push(format!("tuple0={} tuple1={} tuple2={} tuple3={}", ocanon(ty.tuple_element_at(0)), ocanon(ty.tuple_element_at(1)), ocanon(ty.tuple_element_at(2)), ocanon(ty.tuple_element_at(3))));
     out.push(format!("field_a={} field_b={} has_a={}", ocanon(ty.field_type("a")), ocanon(ty.field_type("b")), ty.has_field("a")));
     out.push(format!(
         "is: fn={} tuple={} mut={} iter={} struct={} indexable={}",
